@@ -195,6 +195,41 @@ def run(chk, model_ok=True):
                     break
         elif out == "PANIC":
             fail(ln, out, "encoder panicked")
+    # end to end: oversized and fitting requests interleaved on sessions sharing the buffer pool
+    from props import c03
+    from vlib import e2e, sessions
+    env = e2e.env()
+    peers = sessions.default_peers()
+    n_e2e = 0
+    for h in range(25 if quick else 600):
+        for s in sessions.run_history(env, rng, peers, rng.randrange(1, 4), rng.randrange(6, 30), oversize_bias=0.3):
+            seen_bt = None
+            for rec in s.records:
+                if rec["kind"] != "send":
+                    continue
+                n_e2e += 1
+                r = rec["result"]
+                why = None
+                if r[0] != "ok":
+                    if rec["datagrams"]:
+                        why = f"call failed with {r[1]} but a datagram was sent"
+                    elif not r[2]:
+                        why = f"{r[1]} is not an Exception (panic)"
+                    else:
+                        est = c03.size_estimate(s, rec)
+                        if r[1] == "SnmpEncodeError" and est is not None and est < 3900:
+                            why = f"request needing at most {est} octets was refused with SnmpEncodeError"
+                        elif r[1] == "SnmpEncodeError":
+                            sizes["oob"] += 1
+                else:
+                    d = rec["req"]
+                    if not d or "undecodable" in d or not d.get("all_minimal"):
+                        why = f"datagram of a fitting request is not a complete minimally encoded message: {str(d)[:120]}"
+                    elif len(rec["datagrams"][0]) > cap():
+                        why = f"datagram of {len(rec['datagrams'][0])} octets exceeds the buffer capacity"
+                if why:
+                    fail(s.line()[:400000], str(r), f"{s.label} {rec['op']}: {why}")
+    chk.coverage["e2e_sends"] = n_e2e
     st.diff("C17 buffer / encoders")
     st.coverage(
         "buf: random operation sequences (1..30 ops of push / push_u8 / push_tag_len / push_tagged / skip+fill / reset / "
